@@ -7,9 +7,12 @@ import (
 	"crypto/tls"
 	"encoding/hex"
 	"fmt"
+	"io"
+	"net/http"
 	"os"
 	"path/filepath"
 	"sort"
+	"strconv"
 	"strings"
 	"sync"
 	"time"
@@ -590,4 +593,27 @@ func (c *Ctx) startFailure(err error, where string) {
 		msg = msg[:3000]
 	}
 	c.Violation("proxy-start-failed", "the proxy did not start with a valid configuration ("+where+"): "+msg, map[string]any{"where": where, "err": msg})
+}
+
+// bedMetric reads one counter / gauge from the proxy's metrics endpoint (first sample whose name
+// ends with name).
+func bedMetric(b *Bed, name string) (float64, bool) {
+	cl := &http.Client{Timeout: 3 * time.Second}
+	resp, err := cl.Get("http://" + b.Metrics + "/metrics")
+	if err != nil {
+		return 0, false
+	}
+	defer resp.Body.Close()
+	body, _ := io.ReadAll(io.LimitReader(resp.Body, 4<<20))
+	for _, l := range strings.Split(string(body), "\n") {
+		if strings.HasPrefix(l, "#") {
+			continue
+		}
+		f := strings.Fields(l)
+		if len(f) == 2 && (f[0] == name || strings.HasSuffix(f[0], "_"+name)) {
+			v, err := strconv.ParseFloat(f[1], 64)
+			return v, err == nil
+		}
+	}
+	return 0, false
 }
